@@ -42,7 +42,7 @@ TCmd == /\ Is("cmd") /\ owed = 1 /\ Step /\ owed' = 0
 
 TSent == /\ Is("sent") /\ owed = 0 /\ Step /\ UNCHANGED <<owed, odd>>
          /\ IF Cur.drop THEN DropWith(Cur.b)
-            ELSE Send(Cur.b, Cur.xfer, IF cpc = "r_pasv" THEN PasvAddr(Cur.b) ELSE 0)
+            ELSE Send(Cur.b, Cur.xfer)
 
 TSentFinal == /\ Is("sentfinal") /\ owed = 0 /\ Step /\ UNCHANGED <<owed, odd>>
               /\ SendFinal(Cur.b)
